@@ -26,18 +26,18 @@ theorem readAll_of_img {s d md X es} (h : Img s d md X es) : readAll d = some (e
   · simp only [h1, walItems]; exact walParse_mk _
 
 /-- the disks along a flush -/
-theorem flush_disks {s : Name} {d : Disk} {sh : Shard} {X : List Update} (id : Nat)
-    (hname : sh.md.name = s) (himg : Img s d (some sh.md) X sh.buffer)
+theorem flush_disks {s : Name} {d : Disk} {sh : Shard} {md0 : ShardMeta} {X : List Update} (id : Nat)
+    (hname : sh.md.name = s) (hb0 : md0.batches = sh.md.batches) (himg : Img s d (some md0) X sh.buffer)
     (hfresh : ∀ b ∈ sh.md.batches, b.id ≠ id) :
     let ops := (flushSteps s id sh.buffer (flushedMeta sh id)).map (·.2)
-    (∀ k, k ≤ 5 → Img s (applyAll d (ops.take k)) (some sh.md) X sh.buffer) ∧
+    (∀ k, k ≤ 5 → Img s (applyAll d (ops.take k)) (some md0) X sh.buffer) ∧
     Img s (applyAll d (ops.take 6)) (some (flushedMeta sh id)) (X ++ sh.buffer) sh.buffer ∧
     (∀ k, 7 ≤ k → Img s (applyAll d (ops.take k)) (some (flushedMeta sh id)) (X ++ sh.buffer) []) := by
   intro ops
   have i0 := himg
   have i1 := i0.write_batchTmp id [.batch sh.buffer]
   have i2 := i1.fsync (.batchTmp id)
-  have i3 := i2.rename_batch id (fun m hm b hb => by cases hm; exact hfresh b hb)
+  have i3 := i2.rename_batch id (fun m hm b hb => by cases hm; exact hfresh b (hb0 ▸ hb))
   have i4 := i3.write_metaTmp (metaFile s) [.smeta (flushedMeta sh id)]
   have i5 := i4.fsync (.metaTmp (metaFile s))
   have hbatch : itemsAt (apply (apply (apply (apply (apply d (.write (.batchTmp id) [.batch sh.buffer])) (.fsync (.batchTmp id)))
@@ -48,7 +48,8 @@ theorem flush_disks {s : Name} {d : Disk} {sh : Shard} {X : List Update} (id : N
       (.rename (.batchTmp id) (.batch id))) (.write (.metaTmp (metaFile s)) [.smeta (flushedMeta sh id)]))
       (.fsync (.metaTmp (metaFile s)))) (.metaTmp (metaFile s)) = some [.whole (.smeta (flushedMeta sh id))] := by
     simp [itemsAt_fsync, itemsAt_write]
-  have i6 := i5.rename_flush_meta (flushedMeta sh id) id _ _ rfl hbatch hsrc
+  have i6 := i5.rename_flush_meta (flushedMeta sh id) id { id := id, upper := maxTimeP1 sh.buffer, len := sh.buffer.length }
+    (by simp [flushedMeta, addBatch, hname]) (by simp [flushedMeta, addBatch, hb0]) rfl hbatch hsrc
   have i7 := i6.unlink_wal (by simp)
   refine ⟨?_, ?_, ?_⟩
   · intro k hk
@@ -67,9 +68,9 @@ theorem flush_disks {s : Name} {d : Disk} {sh : Shard} {X : List Update} (id : N
 
 
 /-- what `flush` does to a world whose only shard `s` has a non-empty buffer that the WAL mirrors -/
-theorem flush_world {s : Name} {w : World} {sh : Shard} {X : List Update}
-    (hsh : w.mem.shards = [(s, sh)]) (hname : sh.md.name = s) (hbuf : sh.buffer ≠ [])
-    (himg : Img s w.disk (some sh.md) X sh.buffer)
+theorem flush_world {s : Name} {w : World} {sh : Shard} {md0 : ShardMeta} {X : List Update}
+    (hsh : w.mem.shards = [(s, sh)]) (hname : sh.md.name = s) (hbuf : sh.buffer ≠ []) (hb0 : md0.batches = sh.md.batches)
+    (himg : Img s w.disk (some md0) X sh.buffer)
     (hfresh : ∀ b ∈ sh.md.batches, b.id ≠ w.mem.nextBatch) :
     flush w s =
       { mem := { w.mem with shards := [(s, { md := flushedMeta sh w.mem.nextBatch, buffer := [] })],
@@ -77,7 +78,7 @@ theorem flush_world {s : Name} {w : World} {sh : Shard} {X : List Update}
         disk := applyAll w.disk ((flushSteps s w.mem.nextBatch sh.buffer (flushedMeta sh w.mem.nextBatch)).map (·.2)),
         trace := w.trace ++ flushSteps s w.mem.nextBatch sh.buffer (flushedMeta sh w.mem.nextBatch),
         failed := w.failed } := by
-  obtain ⟨_, i6, _⟩ := flush_disks w.mem.nextBatch hname himg hfresh
+  obtain ⟨_, i6, _⟩ := flush_disks w.mem.nextBatch hname hb0 himg hfresh
   have hread := readAll_of_img i6
   have hwal : (get (applyAll w.disk (((flushSteps s w.mem.nextBatch sh.buffer (flushedMeta sh w.mem.nextBatch)).map (·.2)).take 6)) .wal).isSome = true := by
     rw [isSome_get]
@@ -94,12 +95,13 @@ theorem flush_world {s : Name} {w : World} {sh : Shard} {X : List Update}
 
 /-! ### the running invariant and recovery -/
 
-/-- running invariant of a single-shard store with durable content `C` (batches, then buffer = WAL) -/
+/-- running invariant of a single-shard store with durable content `C` (batches, then buffer = WAL); the metadata on
+    disk (`md0`) is the one of the last save: it has the shard's batches, only `upper` may lag behind memory -/
 structure Run (s : Name) (w : World) (C : List Update) : Prop where
   notFailed : w.failed = false
   shape : (w.mem.shards = [] ∧ Img s w.disk none [] [] ∧ C = []) ∨
-    (∃ sh X, w.mem.shards = [(s, sh)] ∧ sh.md.name = s ∧ Img s w.disk (some sh.md) X sh.buffer ∧ C = X ++ sh.buffer ∧
-      ∀ b ∈ sh.md.batches, b.id < w.mem.nextBatch)
+    (∃ sh md0 X, w.mem.shards = [(s, sh)] ∧ sh.md.name = s ∧ md0.batches = sh.md.batches ∧
+      Img s w.disk (some md0) X sh.buffer ∧ C = X ++ sh.buffer ∧ ∀ b ∈ sh.md.batches, b.id < w.mem.nextBatch)
 
 def orphan (shards : List (Name × Shard)) : Path → Bool
   | .batch id => !referenced shards id
@@ -248,18 +250,20 @@ theorem isSome_walNew {s d md X es} (h : Img s d md X es) : (get d .walNew).isSo
   rw [isSome_get, h.walNew]; rfl
 
 /-- stage 3 on a single-shard world -/
-theorem finish_single {s : Name} {w : World} {sh : Shard} {X : List Update} (hf : w.failed = false)
-    (hsh : w.mem.shards = [(s, sh)]) (hname : sh.md.name = s) (himg : Img s w.disk (some sh.md) X sh.buffer)
+theorem finish_single {s : Name} {w : World} {sh : Shard} {md0 : ShardMeta} {X : List Update} (hf : w.failed = false)
+    (hsh : w.mem.shards = [(s, sh)]) (hname : sh.md.name = s) (hb0 : md0.batches = sh.md.batches)
+    (himg : Img s w.disk (some md0) X sh.buffer)
     (hids : ∀ b ∈ sh.md.batches, b.id < w.mem.nextBatch) :
     ∃ w', stageFinish w = some w' ∧ Run s w' (X ++ sh.buffer) ∧ visible w' = visOf s (X ++ sh.buffer) := by
-  obtain ⟨_, _, _, hX⟩ := himg.hasMeta sh.md rfl
+  obtain ⟨_, _, _, hX⟩ := himg.hasMeta md0 rfl
+  rw [hb0] at hX
   cases hsf : stageFinish w with
   | none => simp [stageFinish, isSome_walNew himg, hsh, loadRelations, readShard, hX] at hsf
   | some w' =>
     simp only [stageFinish, isSome_walNew himg, Bool.false_eq_true, if_false, hsh, loadRelations, readShard, hX,
       Option.some.injEq] at hsf
     subst hsf
-    exact ⟨_, rfl, ⟨hf, .inr ⟨sh, X, rfl, hname, himg, rfl, hids⟩⟩, visible_single s _ sh X rfl hX⟩
+    exact ⟨_, rfl, ⟨hf, .inr ⟨sh, md0, X, rfl, hname, hb0, himg, rfl, hids⟩⟩, visible_single s _ sh X rfl hX⟩
 
 theorem finish_empty {s : Name} {w : World} (hf : w.failed = false) (hsh : w.mem.shards = [])
     (himg : Img s w.disk none [] []) :
@@ -354,7 +358,7 @@ theorem recover_img {s : Name} {d : Disk} {md : Option ShardMeta} {X es : List U
     by_cases hes : es = []
     · subst hes
       have hrep := stageReplay_nil w1 [] (by simpa using hread) hf1
-      obtain ⟨w', hfin, hrun, hvis⟩ := finish_single (sh := { md := m, buffer := [] }) hf1 hsh1 hname himg1
+      obtain ⟨w', hfin, hrun, hvis⟩ := finish_single (sh := { md := m, buffer := [] }) hf1 hsh1 hname rfl himg1
         (by simpa [hnb1] using hids)
       exact ⟨w', by simp only [openEngine, hload, hrep, hfin], by simpa using hrun, by simpa using hvis⟩
     · -- the WAL holds entries: replay them into the buffer, then the drain flush
@@ -363,16 +367,16 @@ theorem recover_img {s : Name} {d : Disk} {md : Option ShardMeta} {X es : List U
         rw [hsh1, replay_one]; simp
       have hfresh : ∀ b ∈ m.batches, b.id ≠ nb := fun b hb => by have := hids b hb; omega
       have hfl := flush_world (s := s) (w := { w1 with mem := { w1.mem with shards := [(s, { md := m, buffer := es })] } })
-        (sh := { md := m, buffer := es }) (X := X) rfl hname hes himg1 (by simpa [hnb1] using hfresh)
+        (sh := { md := m, buffer := es }) (X := X) rfl hname hes rfl himg1 (by simpa [hnb1] using hfresh)
       have hff : (flush { w1 with mem := { w1.mem with shards := [(s, { md := m, buffer := es })] } } s).failed = false := by
         rw [hfl]; exact hf1
       have hrep := stageReplay_flush w1 s { md := m, buffer := es } _ hread hmapne hrp hes hff
-      obtain ⟨_, _, i7⟩ := flush_disks (s := s) (d := w1.disk) (sh := { md := m, buffer := es }) (X := X) nb hname himg1 hfresh
+      obtain ⟨_, _, i7⟩ := flush_disks (s := s) (d := w1.disk) (sh := { md := m, buffer := es }) (X := X) nb hname rfl himg1 hfresh
       have i7' := i7 7 (Nat.le_refl 7)
       obtain ⟨w', hfin, hrun, hvis⟩ := finish_single (s := s)
         (w := flush { w1 with mem := { w1.mem with shards := [(s, { md := m, buffer := es })] } } s)
         (sh := { md := flushedMeta { md := m, buffer := es } nb, buffer := [] }) (X := X ++ es)
-        hff (by rw [hfl]; simp [hnb1]) (by simp [flushedMeta, addBatch, hname])
+        hff (by rw [hfl]; simp [hnb1]) (by simp [flushedMeta, addBatch, hname]) rfl
         (by rw [hfl]; simpa [flushSteps, hnb1] using i7')
         (by
           rw [hfl]
